@@ -377,6 +377,64 @@ fn c01_like(tier: Tier, oracles: Oracles, with_drop: bool) -> Vec<Scenario> {
         let sc = Scenario::new("big-keys-m2", Cfg::default(), vec![tx(setup_ops), Action::Reopen], Box::new(txs_of(&bops, 2, with_drop, true)), if q { 2 } else { 3 }, oracles);
         out.push(sc);
     }
+    // five levels of nesting: operations at the two deepest levels, deleting ancestors
+    {
+        let deep_setup = vec![tx(vec![
+            OpSpec::bucket("create", &[], "a"),
+            OpSpec::bucket("create", &["a"], "b"),
+            OpSpec::bucket("create", &["a", "b"], "c"),
+            OpSpec::bucket("create", &["a", "b", "c"], "d"),
+            OpSpec::put(&["a", "b", "c", "d"], "k", "w*300"),
+            OpSpec::put(&["a", "b", "c"], "k", "v*20"),
+            OpSpec::put(&["a"], "k", "v*20"),
+        ])];
+        let dops = vec![
+            OpSpec::bucket("goc", &["a", "b", "c", "d"], "e"),
+            OpSpec::put(&["a", "b", "c", "d", "e"], "k", "x*1500"),
+            OpSpec::put(&["a", "b", "c", "d"], "k2", "w*300"),
+            OpSpec::del(&["a", "b", "c", "d"], "k"),
+            OpSpec::bucket("delb", &["a", "b", "c", "d"], "e"),
+            OpSpec::bucket("delb", &["a", "b", "c"], "d"),
+            OpSpec::bucket("delb", &["a", "b"], "c"),
+            OpSpec::bucket("delb", &[], "a"),
+            OpSpec::bucket("create", &["a", "b", "c"], "d"),
+            OpSpec::bucket("goc", &["a", "b"], "c"),
+            OpSpec::bucket("getb", &["a", "b", "c", "d"], "e"),
+        ];
+        out.push(Scenario::new("deep-nest-m2", Cfg::default(), deep_setup, Box::new(txs_of(&dops, 2, with_drop, true)), if q { 2 } else { 3 }, oracles));
+    }
+    // a bucket holding sub-buckets and pairs with interleaved names, and one holding only buckets
+    {
+        let mixed_setup = vec![tx(vec![
+            OpSpec::bucket("create", &[], "m"),
+            OpSpec::put(&["m"], "a0", "v*20"),
+            OpSpec::bucket("create", &["m"], "b1"),
+            OpSpec::put(&["m"], "b2", "w*300"),
+            OpSpec::bucket("create", &["m"], "b3"),
+            OpSpec::put(&["m"], "c4", "v*20"),
+            OpSpec::put(&["m", "b1"], "in", "v*20"),
+            OpSpec::bucket("create", &[], "only"),
+            OpSpec::bucket("create", &["only"], "o1"),
+            OpSpec::bucket("create", &["only"], "o2"),
+        ])];
+        let mops = vec![
+            OpSpec::bucket("delb", &["m"], "b1"),
+            OpSpec::bucket("delb", &["m"], "b3"),
+            OpSpec::bucket("goc", &["m"], "b1"),
+            OpSpec::bucket("create", &["m"], "a1"),
+            OpSpec::del(&["m"], "b2"),
+            OpSpec::del(&["m"], "a0"),
+            OpSpec::put(&["m"], "b2", "x*1500"),
+            OpSpec::put(&["m"], "b1", "v*20"),
+            OpSpec::del(&["m"], "b1"),
+            OpSpec::bucket("delb", &["m"], "b2"),
+            OpSpec::bucket("delb", &["only"], "o1"),
+            OpSpec::bucket("delb", &["only"], "o2"),
+            OpSpec::put(&["only", "o2"], "k", "v*20"),
+            OpSpec::bucket("create", &["only"], "o0"),
+        ];
+        out.push(Scenario::new("mixed-buckets-and-pairs-m2", Cfg::default(), mixed_setup, Box::new(txs_of(&mops, 2, with_drop, true)), if q { 2 } else { 3 }, oracles));
+    }
     // boundary sizes at page size 1024 (page header 40, leaf element 32): five entries whose node is
     // one byte short of a page / exactly a page / one byte more (the split rule compares with the
     // page size), and a single entry whose node ends one byte before / at / after the end of its
@@ -404,13 +462,18 @@ fn c01_like(tier: Tier, oracles: Oracles, with_drop: bool) -> Vec<Scenario> {
     }
     // values of many pages: a single commit that has to extend the file by more than one step
     {
-        let hops = vec![
+        let mut hops = vec![
             OpSpec::put(&["h"], "big", "H*9500000"),
             OpSpec::put(&["h"], "bigger", "I*17900000"),
             OpSpec::put(&["h"], "small", "v*8"),
             OpSpec::del(&["h"], "big"),
             OpSpec::del(&["h"], "bigger"),
         ];
+        if oracles.probe_each_op.is_none() {
+            // more than 65 535 pages in one value (page ids and overflow counts beyond 16 bits)
+            hops.push(OpSpec::put(&["h"], "giant", "J*68000000"));
+            hops.push(OpSpec::del(&["h"], "giant"));
+        }
         let hsetup = vec![tx(vec![OpSpec::bucket("create", &[], "h")])];
         let mut sc = Scenario::new("huge-values", Cfg { num_pages: 8, ..Cfg::default() }, hsetup, Box::new(txs_of(&hops, if q { 1 } else { 2 }, false, true)), 2, oracles);
         sc.extra_probes = vec![blob("big")];
